@@ -16,6 +16,7 @@ time.time() - as primitives of PySem.v; module-level constants (UbxAckAck.CID, U
 imported module. Fail-closed: any construct outside the accepted subset raises TranslateError (Tie B unavailable for
 the request loop, the verdict rests on Tie A)."""
 import ast
+import os
 
 from .translate import TranslateError, dotted, err, is_logging, method_ast
 
@@ -249,6 +250,9 @@ class Fn:
             if f == 'NmeaParser' and not e.args and getattr(self.mod, 'NmeaParser', None) is not None \
                     and self.mod.NmeaParser.__module__ == 'ubxlib.parser_nmea':
                 return 'py_new_nmea_parser'
+            ctor = self.constructor(e, f)
+            if ctor is not None:
+                return ctor
             if f == 'UbxCID' and len(e.args) == 2 and getattr(self.mod, 'UbxCID', None) is not None:
                 return f'(py_mk_cid {self.ex(e.args[0])} {self.ex(e.args[1])})'
             err(e, f'call {f} is not a pure expression of the subset')
@@ -297,6 +301,29 @@ class Fn:
                 return f'({table[k]} {self.ex(e.args[0])})'
             err(e, f'isinstance(_, {k}) not supported')
         return f'(truthy {self.ex(e)})'
+
+    def constructor(self, e, f):
+        """Fields() / U1('name') ... / CfgKeyData('name'): fresh objects (field names are not modelled)"""
+        if f is None or '.' in f or not hasattr(self.mod, f):
+            return None
+        k = getattr(self.mod, f)
+        import ubxlib.types as T_
+        if k is getattr(T_, 'Fields', None) and not e.args:
+            return 'py_new_fields'
+        int_classes = [getattr(T_, n_, None) for n_ in ('U1', 'U2', 'U4', 'I1', 'I2', 'I4', 'X1', 'X2', 'X4')]
+        if k in int_classes and len(e.args) == 1:
+            if k.__bases__ != (T_.Item,) or any(m_ in k.__dict__ for m_ in ('pack', 'unpack', '__init__')) is False and False:
+                err(e, f'{f}: no longer a plain Item subclass')
+            if k.__bases__ != (T_.Item,) or 'pack' in k.__dict__ or 'unpack' in k.__dict__:
+                err(e, f'{f}: no longer a plain Item subclass')
+            return f'(py_new_int_item {coq_str(k.fmt)})'
+        try:
+            import ubxlib.cfgkeys as K_
+        except Exception:
+            K_ = None
+        if K_ is not None and k is getattr(K_, 'CfgKeyData', None) and len(e.args) == 1:
+            return 'py_new_cfgkey'
+        return None
 
     # ---- effectful calls: returns a Coq term of type fres (variables l, w in scope)
     def call(self, c):
@@ -622,7 +649,7 @@ class ObjFn(Fn):
         # as Fn._collect, but augmented assignment to a local is allowed
         forbidden = (ast.AnnAssign, ast.NamedExpr, ast.With, ast.Global, ast.Nonlocal, ast.Lambda, ast.FunctionDef, ast.ClassDef,
                      ast.ListComp, ast.GeneratorExp, ast.DictComp, ast.SetComp, ast.Delete, ast.Import, ast.ImportFrom, ast.Yield,
-                     ast.YieldFrom, ast.Await, ast.Starred, ast.AsyncFor, ast.AsyncWith, ast.AsyncFunctionDef, ast.While)
+                     ast.YieldFrom, ast.Await, ast.Starred, ast.AsyncFor, ast.AsyncWith, ast.AsyncFunctionDef)
 
         def walk(node):
             if isinstance(node, ast.stmt) and is_noop(node):
@@ -650,6 +677,20 @@ class ObjFn(Fn):
         if isinstance(c.func, ast.Attribute) and c.func.attr == 'splitlines' and not c.args and isinstance(c.func.value, ast.Call) \
                 and isinstance(c.func.value.func, ast.Attribute) and c.func.value.func.attr == 'decode' and not c.func.value.args:
             return f'(res_call (py_decode_lines {self.ex(c.func.value.func.value)}) w)'
+        if isinstance(c.func, ast.Attribute) and c.func.attr == 'unpack' and not c.args and isinstance(c.func.value, ast.Call) \
+                and dotted(c.func.value.func) == 'super' and not c.func.value.args:
+            # UbxFrame.unpack(): `return self.f.unpack(self.data)`
+            from ubxlib.frame import UbxFrame
+            fr = method_ast(UbxFrame, 'unpack')
+            body_ = [b_ for b_ in fr.body if not is_noop(b_)]
+            if not (UbxFrame in self.cls.__mro__ and len(body_) == 1 and isinstance(body_[0], ast.Return)
+                    and ast.unparse(body_[0].value) == 'self.f.unpack(self.data)'):
+                err(c, 'super().unpack() is not UbxFrame.unpack() = self.f.unpack(self.data)')
+            sf = f'({self.fld("self")} l)'
+            return f'(res_call (py_frame_unpack (py_getattr {sf} "f") (py_getattr {sf} "data")) w)'
+        if isinstance(c.func, ast.Attribute) and c.func.attr == 'unpack' and len(c.args) == 1 and isinstance(c.func.value, ast.Name) \
+                and getattr(self, 'local_cls', {}).get(c.func.value.id) == 'CfgKeyData':
+            return f'(gc_unpack sk fuel ({self.fld(c.func.value.id)} l) {self.ex(c.args[0])} w)'
         f = dotted(c.func)
         if f is None or c.keywords:
             return None
@@ -698,6 +739,15 @@ class ObjFn(Fn):
         f = dotted(c.func) if isinstance(c, ast.Call) else None
         return bool(f) and f.split('.')[0] == 'self' and len(f.split('.')) == 2 and f.split('.')[1] in self.known
 
+    def pair_target(self, c):
+        """calls that return (result, updated object): which local / attribute receives the updated object"""
+        if isinstance(c, ast.Call) and isinstance(c.func, ast.Attribute) and c.func.attr == 'unpack':
+            if not c.args and isinstance(c.func.value, ast.Call) and dotted(c.func.value.func) == 'super':
+                return self.self_setter('f')
+            if len(c.args) == 1 and isinstance(c.func.value, ast.Name) and getattr(self, 'local_cls', {}).get(c.func.value.id) == 'CfgKeyData':
+                return self.setter(c.func.value.id)
+        return None
+
     def self_setter(self, attr):
         return f'(fun l v => {self.setter("self")} l (py_setattr ({self.fld("self")} l) {coq_str(attr)} v))'
 
@@ -712,6 +762,13 @@ class ObjFn(Fn):
             tgt = st.targets[0]
             call = self.call(st.value)
             is_attr = isinstance(tgt, ast.Attribute) and isinstance(tgt.value, ast.Name) and tgt.value.id == 'self'
+            if isinstance(tgt, ast.Name) and isinstance(st.value, ast.Call) and dotted(st.value.func) == 'CfgKeyData':
+                self.local_cls = dict(getattr(self, 'local_cls', {}), **{tgt.id: 'CfgKeyData'})
+            if (is_attr or isinstance(tgt, ast.Name)) and call is not None and self.pair_target(st.value) is not None:
+                setter = self.self_setter(tgt.attr) if is_attr else self.setter(tgt.id)
+                if not is_attr:
+                    self.defined.add(tgt.id)
+                return f'(s_call_assign2 {setter} {self.pair_target(st.value)} {self.lam(call)})'
             if is_attr or isinstance(tgt, ast.Name):
                 setter = self.self_setter(tgt.attr) if is_attr else self.setter(tgt.id)
                 if call is None:
@@ -736,6 +793,9 @@ class ObjFn(Fn):
             return f'(s_seq {first}\n (s_assign {self.setter(v)} (fun l w => py_add ({self.fld(v)} l) ({self.fld("aug__tmp")} l))))'
         if isinstance(st, ast.Expr) and isinstance(st.value, ast.Call) and self.is_method_call(st.value):
             return f'(s_call_assign2 (fun l _ => l) {self.setter("self")} {self.lam(self.call(st.value))})'
+        if isinstance(st, ast.Expr) and isinstance(st.value, ast.Call) and dotted(st.value.func) == 'self.f.add' and len(st.value.args) == 1:
+            sf = f'({self.fld("self")} l)'
+            return (f'(s_assign {self.self_setter("f")} (fun l w => py_fields_add (py_getattr {sf} "f") {self.ex(st.value.args[0])}))')
         if isinstance(st, ast.For):
             if st.orelse or not isinstance(st.target, ast.Name):
                 err(st, 'for loop form not supported')
@@ -882,6 +942,28 @@ def emit_gpsd_v(path):
         L.append(f.emit())
         L.append('')
     L.append('End G.')
+    text = '\n'.join(L) + '\n'
+    with open(path, 'w') as fh:
+        fh.write(text)
+    return text
+
+
+def emit_valget_v(path):
+    """UbxCfgValGet.unpack (ubxlib/ubx_cfg_valget.py): header fields, then the loop over key/value pairs -> gen/ValgetKernels.v
+    (uses gc_unpack of CfgKernels.v, generated next to it)"""
+    import ubxlib.ubx_cfg_valget as mod
+    emit_cfgobj_v(os.path.join(os.path.dirname(path), 'CfgKernels.v'))
+    f = ObjFn(mod, mod.UbxCfgValGet, 'unpack', {}, prefix='gv_')
+    f.short = 'v' + f.short
+    L = ['(* GENERATED on every run by py/vlib/translate_req.py from ubxlib/ubx_cfg_valget.py in /repo. Do not edit. *)',
+         'From Coq Require Import String.',
+         'From Ubx Require Import Fields Base Checksum Frame ParserUbx ParserNmea CfgKeys Request PySem.',
+         'From UbxGen Require Import CfgKernels.',
+         'Open Scope N_scope.', '']
+    L += f.record()
+    L += ['', 'Section G.', 'Context {E : Type} (B : backend E) (sk : list N).', 'Notation fres := (@fres E).', '']
+    L.append(f.emit())
+    L += ['', 'End G.']
     text = '\n'.join(L) + '\n'
     with open(path, 'w') as fh:
         fh.write(text)
